@@ -115,6 +115,27 @@ pub fn points_to_curve(points: &[Point2], curve: &Curve2, initial: &Iso2) -> Res
     }
 }
 
+/// Verification hook: builds the private problem, applies `history` through `set_params` and
+/// returns what the solver would observe: (params, residuals, jacobian column-major, transform)
+#[cfg(feature = "verif")]
+pub fn verif_observe(
+    points: &[Point2],
+    curve: &Curve2,
+    initial: &Iso2,
+    history: &[[f64; 3]],
+) -> (Vec<f64>, Vec<f64>, Vec<f64>, Iso2) {
+    let mut problem = PointsToCurve::new(points, curve, initial);
+    for h in history {
+        problem.set_params(&Vector::<f64, U3, Owned<f64, U3>>::new(h[0], h[1], h[2]));
+    }
+    (
+        problem.params().as_slice().to_vec(),
+        problem.residuals().unwrap().as_slice().to_vec(),
+        problem.jacobian().unwrap().as_slice().to_vec(),
+        *problem.params.transform(),
+    )
+}
+
 #[cfg(test)]
 mod tests {
     use super::*;
